@@ -34,8 +34,10 @@
 -/
 import Fsel.Model.Eval
 import Fsel.Lemmas.ParseCond
+import Fsel.Lemmas.Criteria
 import Fsel.Props.C15
 import Fsel.Props.C02
+import Fsel.Props.C12
 
 namespace Fsel.C03
 open Fsel
@@ -112,7 +114,7 @@ def verdict (cx : EvalCtx) (e : Entry) : Expr → EM CmpRes
     | .ok (fv, _) =>
       match columnValue cx (some e) [] r with
       | .error er => .error er
-      | .ok (v, _) => (compareValues cx.cfg.today [] fv op v).map (·.1)
+      | .ok (v, _) => (compareAtom cx.cfg.today [] fv op v).map (·.1)
   | _ => .ok (.val false)
 
 /-- a comparison atom whose negated operator yields the negated verdict on this entry -/
@@ -268,13 +270,53 @@ theorem text_compare_neg_plain (today : Int) (fv v : Variant) (hty : fv.ty = .st
   unfold compareValues
   simp [hty, hg, Op.negate, Except.map, CmpRes.not, bne]
 
-/-- ordering operators on text answer `false`, and so do their negations: outside `AtomNegOK`
-    (the hypothesis of `negate_complement` cannot be dropped) -/
-theorem text_ordering_counterexample (today : Int) (fv v : Variant) (hty : fv.ty = .string) :
-    (compareValues today [] fv .Gt v).map (·.1) = .ok (.val false) ∧
-    (compareValues today [] fv Op.Gt.negate v).map (·.1) = .ok (.val false) := by
+/-- ordering operators on text (lexicographic order, D73 fix): `>`/`<=` and `>=`/`<` are complementary
+    for every pair of texts — ordering atoms over text columns satisfy `AtomNegOK` too -/
+theorem text_ordering_neg (today : Int) (fv v : Variant) (hty : fv.ty = .string) (op : Op)
+    (h : op = .Gt ∨ op = .Gte ∨ op = .Lt ∨ op = .Lte) :
+    (compareValues today [] fv op.negate v).map (·.1) = ((compareValues today [] fv op v).map (·.1)).map CmpRes.not := by
   unfold compareValues
-  simp [hty, Op.negate, Except.map]
+  rcases h with h | h | h | h <;> subst h <;>
+    simp only [hty, Op.negate, Except.map, CmpRes.not] <;>
+    simp [CriteriaL.strLe_eq_not_strLt]
+
+/-- the order is the code-point order: a text is below another exactly when it is a proper prefix or
+    smaller at the first difference -/
+example : strLt (ofS "a10") (ofS "a9") = true ∧ strLe (ofS "b") (ofS "b") = true ∧ strLt (ofS "b") (ofS "b") = false := by decide
+
+/-- pattern operators on a column of ANY type (D74 fix: they match the text of the value): `like` /
+    `not like` and `=~` / `!=~` are complementary whatever the left value's type, so such atoms satisfy
+    `AtomNegOK` as well -/
+theorem pattern_neg_any_type (today : Int) (fv v : Variant) (op : Op) (hp : op = .Like ∨ op = .Rx)
+    (hex : fv.exact = true) :
+    (compareAtom today [] fv op.negate v).map (·.1) = ((compareAtom today [] fv op v).map (·.1)).map CmpRes.not := by
+  have hneg : patternOp op.negate = true := by rcases hp with h | h <;> subst h <;> rfl
+  have hpos : patternOp op = true := by rcases hp with h | h <;> subst h <;> rfl
+  rw [C02.pattern_on_any_type today [] fv v op.negate hneg hex, C02.pattern_on_any_type today [] fv v op hpos hex]
+  have N := C12.negatives_complement today [] fv.text v.text
+  simp only at N
+  rcases hp with h | h <;> subst h
+  · have : Op.Like.negate = .NotLike := rfl
+    rw [this, N.2.1]
+    cases compareValues today [] (Variant.ofString fv.text) Op.Like (Variant.ofString v.text) with
+    | error e => rfl
+    | ok r => obtain ⟨b, c⟩ := r; cases b <;> rfl
+  · have : Op.Rx.negate = .NotRx := rfl
+    rw [this, N.2.2.1]
+    cases compareValues today [] (Variant.ofString fv.text) Op.Rx (Variant.ofString v.text) with
+    | error e => rfl
+    | ok r => obtain ⟨b, c⟩ := r; cases b <;> rfl
+
+/-- the per-type complement lemmas above speak about the typed comparison; an atom with an ordering /
+    equality operator *is* the typed comparison (only pattern operators are re-typed), so they carry
+    over to atoms as evaluated by `conforms` -/
+theorem ordering_atom_lifts (today : Int) (fv v : Variant) (op : Op) (h : orderingOp op = true)
+    (H : (compareValues today [] fv op.negate v).map (·.1) = ((compareValues today [] fv op v).map (·.1)).map CmpRes.not) :
+    (compareAtom today [] fv op.negate v).map (·.1) = ((compareAtom today [] fv op v).map (·.1)).map CmpRes.not := by
+  have h1 : patternOp op = false := by cases op <;> simp [orderingOp] at h <;> rfl
+  have h2 : patternOp op.negate = false := by cases op <;> simp [orderingOp] at h <;> rfl
+  rw [C02.atom_is_typed_comparison today [] fv v op.negate (Or.inl h2), C02.atom_is_typed_comparison today [] fv v op (Or.inl h1)]
+  exact H
 
 /-! ### the condition parser -/
 
